@@ -704,6 +704,17 @@ func (c *Ctx) judgeReadShape(fn *ssa.Function) {
 		c.R.Undecf("F7.read", fname, "attrs-then-rest", c.Pos(fn.Pos()), what, "the parser does not take (io.Reader, size int)")
 		return
 	}
+	// a single Read on the file is not a full read: a short count goes unnoticed
+	for _, di := range dv.order {
+		call, isC := di.i.(ssa.CallInstruction)
+		if !isC || !call.Common().IsInvoke() || call.Common().Method.Name() != "Read" {
+			continue
+		}
+		if r := dv.objectOf(call.Common().Value, di.fr); r.fr == dv.root && r.v == ssa.Value(streamP) && !inLoop(di.fr.fn, di.i.Block()) {
+			c.R.Violf("F7.read", fname, "attrs-then-rest", c.IPos(di.i), what, "a single Read on the file outside a loop: it may return fewer bytes than asked for without an error, so a file shorter than the attribute header (or a short value) is accepted")
+			return
+		}
+	}
 	reads, complete := dv.streamReads(streamP)
 	if !complete {
 		c.R.Infof("F7.read", fname, "attrs-then-rest", c.Pos(fn.Pos()), "not decided for this shape: the stream is consumed by something other than encoding/binary.Read / io.ReadFull on resolvable buffers")
